@@ -955,5 +955,180 @@ theorem run_refines (st : StrictTotal gt) (ops : List (Op K V)) (d : Db K V) (in
     rw [← hs.2.1, hs.1.symm]
     exact ⟨by rw [this.1], this.2.1, this.2.2⟩
 
+/-! ### cursors: scans -/
+
+/-- iterate a cursor step function with fuel: the record under the cursor after every successful
+    step, and whether the iteration ended because the step reported not-found (`true`) rather than
+    because the fuel ran out (`false`) -/
+def scan (d : Db K V) (step : CPos → CPos × Bool) : Nat → CPos → List (Option (K × V)) × Bool
+  | 0, _ => ([], false)
+  | n + 1, p =>
+    if (step p).2 then (curRec d (step p).1 :: (scan d step n (step p).1).1, (scan d step n (step p).1).2)
+    else ([], true)
+
+theorem drop_of_getElem? {α : Type} {l : List α} {n : Nat} {x : α} (h : l[n]? = some x) :
+    l.drop n = x :: l.drop (n + 1) := by
+  induction l generalizing n with
+  | nil => simp at h
+  | cons a tl ih =>
+    cases n with
+    | zero => simp at h; subst h; simp
+    | succ n => simp at h; simp; exact ih h
+
+theorem take_succ_of_getElem? {α : Type} {l : List α} {n : Nat} {x : α} (h : l[n]? = some x) :
+    l.take (n + 1) = l.take n ++ [x] := by
+  rw [List.take_add_one, h]; rfl
+
+theorem nodeLen_eq {d : Db K V} {i : Nat} {nd : Node K V} (h : d.nodes[i]? = some nd) :
+    nodeLen d i = nd.recs.length := by
+  simp [nodeLen, h]
+
+theorem scan_next_at (d : Db K V) (hok : NodesOk d.nodes) (fuel : Nat) :
+    ∀ (i j : Nat) (nd : Node K V), d.nodes[i]? = some nd → j < nd.recs.length →
+      (nd.recs.drop (j + 1) ++ flatten (d.nodes.drop (i + 1))).length < fuel →
+      scan d (curNext d) fuel (.at i j 0) =
+        ((nd.recs.drop (j + 1) ++ flatten (d.nodes.drop (i + 1))).map some, true) := by
+  induction fuel with
+  | zero => intro i j nd _ _ h; omega
+  | succ fuel ih =>
+    intro i j nd hn hj hf
+    have hs : ¬ ((0 : Int) > 0) := by omega
+    simp only [scan, curNext, hs, if_false, nodeLen_eq hn]
+    by_cases hlast : j + 1 ≥ nd.recs.length
+    · simp only [hlast, if_true]
+      have hd : nd.recs.drop (j + 1) = [] := List.drop_of_length_le hlast
+      rw [hd, List.nil_append] at hf ⊢
+      by_cases hi : i + 1 < d.nodes.length
+      · simp only [hi, if_true]
+        obtain ⟨nd', hn'⟩ : ∃ nd', d.nodes[i + 1]? = some nd' := ⟨_, List.getElem?_eq_getElem hi⟩
+        have hne := (hok nd' (List.mem_of_getElem? hn')).1
+        cases hr : nd'.recs with
+        | nil => exact absurd hr hne
+        | cons x tl =>
+          rw [drop_of_getElem? hn', flatten_cons, hr] at hf ⊢
+          have hrec : curRec d (.at (i + 1) 0 0) = some x := by simp [curRec, hn', hr]
+          rw [hrec, ih (i + 1) 0 nd' hn' (by rw [hr]; simp)]
+          · simp [hr]
+          · simp only [hr, List.drop_succ_cons, List.drop_zero]
+            simp only [List.cons_append, List.length_cons] at hf
+            omega
+      · simp only [hi, if_false]
+        rw [List.drop_of_length_le (Nat.le_of_not_gt hi)]; rfl
+    · simp only [hlast, if_false]
+      have hj' : j + 1 < nd.recs.length := Nat.lt_of_not_ge hlast
+      obtain ⟨x, hx⟩ : ∃ x, nd.recs[j + 1]? = some x := ⟨_, List.getElem?_eq_getElem hj'⟩
+      have hrec : curRec d (.at i (j + 1) 0) = some x := by simp [curRec, hn, hx]
+      rw [drop_of_getElem? hx] at hf ⊢
+      rw [hrec, ih i (j + 1) nd hn hj']
+      · simp
+      · simp only [List.cons_append, List.length_cons] at hf; omega
+
+/-- NEXT from before-first visits every record of the chain in order, then reports not-found -/
+theorem scan_next_head (d : Db K V) (hok : NodesOk d.nodes) (fuel : Nat) (hf : (flatten d.nodes).length < fuel) :
+    scan d (curNext d) fuel .head = ((flatten d.nodes).map some, true) := by
+  cases fuel with
+  | zero => omega
+  | succ fuel =>
+    cases hns : d.nodes with
+    | nil => simp [scan, curNext, hns]
+    | cons nd rest =>
+      have hn : d.nodes[0]? = some nd := by simp [hns]
+      have hne := (hok nd (List.mem_of_getElem? hn)).1
+      cases hr : nd.recs with
+      | nil => exact absurd hr hne
+      | cons x tl =>
+        have hrec : curRec d (.at 0 0 0) = some x := by simp [curRec, hn, hr]
+        rw [hns, flatten_cons, hr] at hf
+        simp only [scan, curNext, hns, List.isEmpty_cons, Bool.false_eq_true, if_false, if_true]
+        rw [← hns, hrec, scan_next_at d hok fuel 0 0 nd hn (by rw [hr]; simp)]
+        · simp [hns, hr]
+        · simp only [hns, hr, List.drop_succ_cons, List.drop_zero]
+          simp only [List.cons_append, List.length_cons] at hf
+          omega
+
+theorem scan_prev_at (d : Db K V) (hok : NodesOk d.nodes) (fuel : Nat) :
+    ∀ (i j : Nat) (nd : Node K V), d.nodes[i]? = some nd → j < nd.recs.length →
+      (flatten (d.nodes.take i) ++ nd.recs.take j).length < fuel →
+      scan d (curPrev d) fuel (.at i j 0) =
+        ((flatten (d.nodes.take i) ++ nd.recs.take j).reverse.map some, true) := by
+  induction fuel with
+  | zero => intro i j nd _ _ h; omega
+  | succ fuel ih =>
+    intro i j nd hn hj hf
+    have hs : ¬ ((0 : Int) < 0) := by omega
+    simp only [scan, curPrev, hs, if_false]
+    cases j with
+    | zero =>
+      simp only [if_true, List.take_zero, List.append_nil] at hf ⊢
+      cases i with
+      | zero => simp
+      | succ i =>
+        simp only [Nat.add_one_ne_zero, if_false, Nat.add_sub_cancel, if_true]
+        have hi : i < d.nodes.length := by
+          have := (List.getElem?_eq_some_iff.1 hn).1; omega
+        obtain ⟨nd', hn'⟩ : ∃ nd', d.nodes[i]? = some nd' := ⟨_, List.getElem?_eq_getElem hi⟩
+        have hne := (hok nd' (List.mem_of_getElem? hn')).1
+        have hpos : 0 < nd'.recs.length := List.length_pos_iff.2 hne
+        have hL : nd'.recs.length - 1 < nd'.recs.length := by omega
+        obtain ⟨x, hx⟩ : ∃ x, nd'.recs[nd'.recs.length - 1]? = some x := ⟨_, List.getElem?_eq_getElem hL⟩
+        have hrec : curRec d (.at i (nd'.recs.length - 1) 0) = some x := by simp [curRec, hn', hx]
+        have htk : nd'.recs = nd'.recs.take (nd'.recs.length - 1) ++ [x] := by
+          have := take_succ_of_getElem? hx
+          rw [Nat.sub_add_cancel hpos, List.take_length] at this
+          exact this
+        have hfl : flatten (d.nodes.take (i + 1)) =
+            (flatten (d.nodes.take i) ++ nd'.recs.take (nd'.recs.length - 1)) ++ [x] := by
+          rw [take_succ_of_getElem? hn', flatten_append, flatten_cons, flatten_nil, List.append_nil,
+            List.append_assoc, ← htk]
+        rw [hfl] at hf ⊢
+        rw [nodeLen_eq hn', hrec, ih i (nd'.recs.length - 1) nd' hn' hL]
+        · simp
+        · simp only [List.length_append, List.length_cons, List.length_nil] at hf ⊢; omega
+    | succ j =>
+      simp only [Nat.add_one_ne_zero, if_false, Nat.add_sub_cancel, if_true]
+      have hj' : j < nd.recs.length := by omega
+      obtain ⟨x, hx⟩ : ∃ x, nd.recs[j]? = some x := ⟨_, List.getElem?_eq_getElem hj'⟩
+      have hrec : curRec d (.at i j 0) = some x := by simp [curRec, hn, hx]
+      rw [take_succ_of_getElem? hx, ← List.append_assoc] at hf ⊢
+      rw [hrec, ih i j nd hn hj']
+      · simp
+      · simp only [List.length_append, List.length_cons, List.length_nil] at hf ⊢; omega
+
+/-- PREV from after-last visits every record of the chain in reverse order, then reports not-found -/
+theorem scan_prev_tail (d : Db K V) (hok : NodesOk d.nodes) (fuel : Nat) (hf : (flatten d.nodes).length < fuel) :
+    scan d (curPrev d) fuel .tail = ((flatten d.nodes).reverse.map some, true) := by
+  cases fuel with
+  | zero => omega
+  | succ fuel =>
+    by_cases hns : d.nodes = []
+    · simp [scan, curPrev, hns]
+    · have hpos : 0 < d.nodes.length := List.length_pos_iff.2 hns
+      have hi : d.nodes.length - 1 < d.nodes.length := by omega
+      obtain ⟨nd, hn⟩ : ∃ nd, d.nodes[d.nodes.length - 1]? = some nd := ⟨_, List.getElem?_eq_getElem hi⟩
+      have hne := (hok nd (List.mem_of_getElem? hn)).1
+      have hpos' : 0 < nd.recs.length := List.length_pos_iff.2 hne
+      have hL : nd.recs.length - 1 < nd.recs.length := by omega
+      obtain ⟨x, hx⟩ : ∃ x, nd.recs[nd.recs.length - 1]? = some x := ⟨_, List.getElem?_eq_getElem hL⟩
+      have hrec : curRec d (.at (d.nodes.length - 1) (nd.recs.length - 1) 0) = some x := by simp [curRec, hn, hx]
+      have htk : nd.recs = nd.recs.take (nd.recs.length - 1) ++ [x] := by
+        have := take_succ_of_getElem? hx
+        rw [Nat.sub_add_cancel hpos', List.take_length] at this
+        exact this
+      have hfl : flatten d.nodes =
+          (flatten (d.nodes.take (d.nodes.length - 1)) ++ nd.recs.take (nd.recs.length - 1)) ++ [x] := by
+        have := take_succ_of_getElem? hn
+        rw [Nat.sub_add_cancel hpos, List.take_length] at this
+        conv => lhs; rw [this]
+        rw [flatten_append, flatten_cons, flatten_nil, List.append_nil, List.append_assoc, ← htk]
+      have hempty : d.nodes.isEmpty = false := by
+        cases hd : d.nodes with
+        | nil => exact absurd hd hns
+        | cons a b => rfl
+      rw [hfl] at hf ⊢
+      simp only [scan, curPrev, hempty, Bool.false_eq_true, if_false, if_true]
+      rw [nodeLen_eq hn, hrec, scan_prev_at d hok fuel _ _ nd hn hL]
+      · simp
+      · simp only [List.length_append, List.length_cons, List.length_nil] at hf ⊢; omega
+
 end
 end IwModel.Kv
